@@ -513,7 +513,10 @@ size_t zzAlmostInvMod(word b[], const word a[], const word mod[], size_t n,
 	EXPECT(wwIsW(v, nv, 1));
 	// \gcd(a, mod) != 1? b <- 0
 	if (!wwIsW(v, nv, 1))
+	{
 		wwSetZero(b, n);
+		return k;
+	}
 	// da >= mod => da -= mod
 	if (wwCmp2(da, n + 1, mod, n) >= 0)
 		da[n] -= zzSub2(da, mod, n);
